@@ -384,6 +384,7 @@ func runC16(r *engine.Run) {
 	{
 		n := manyHistoryN(r) / 4
 		r.Rule += fmt.Sprintf(" Many-devices history: %d devices with their own keys through one handler in one sequence (returning to earlier devices), each answer judged like every other.", n)
+		r.Rule += collidingRule()
 		mkDev := func(i int) C16Case {
 			k := baseCase()
 			k.NwkKey, k.AppKey = manyKey(2*i), manyKey(2*i+1)
@@ -401,10 +402,18 @@ func runC16(r *engine.Run) {
 		for i := range devs {
 			devs[i] = mkDev(i)
 		}
+		if t, _ := collidingKeys(); true { // the devices with fingerprint-colliding root keys follow the n ordinary ones
+			for x := 0; x < len(t); x++ {
+				devs = append(devs, mkDev(collisionKeyBase+x))
+			}
+		}
 		r.PartWorkers("many-devices", []string{fmt.Sprintf("devices:%d", n), "kind{join 1.0, join 1.1, rejoin 0}", "MIC{correct, bit flipped (every 16th request)}"}, 1, 1, func(c *engine.Case) {
 			h := C16Handler(devs, nil)
 			step := 0
 			ok := manyHistoryRun(n, func(i int) bool {
+				if i >= collisionKeyBase {
+					i = n + i - collisionKeyBase
+				}
 				k := devs[i]
 				step++
 				if step%16 == 0 && k.Kind == 0 {
